@@ -86,6 +86,8 @@ fn pairs(r: &mut Rng, sz: &Sizes) -> Vec<(JsonShape, JsonShape)> {
 }
 
 pub fn c10(r: &mut Rng, sz: &Sizes, out: &mut Vec<String>) {
+    out.push("p_wide_algebra\t300000\t!ok".to_string());
+    out.push("p_wide_algebra\t40000\t!ok".to_string());
     let mut p = pool(r, sz.shapes);
     for (a, b) in wide_shapes() {
         out.push(format!("similar\t{}\t{}", sx(&a), sx(&b)));
@@ -612,6 +614,7 @@ pub fn c06(r: &mut Rng, sz: &Sizes, out: &mut Vec<String>) {
 }
 
 pub fn c08(r: &mut Rng, sz: &Sizes, out: &mut Vec<String>) {
+    out.push("p_wide_algebra\t300000\t!ok".to_string());
     merger_ops(r, sz, out);
     let mut pool: Vec<J> = vec![
         J::Null, J::Bool(true), J::Num("1".into()), J::Str("s".into()), J::Arr(vec![]), J::Obj(vec![]),
@@ -1051,6 +1054,7 @@ pub fn c11(r: &mut Rng, sz: &Sizes, out: &mut Vec<String>) {
     // birthday-sized: one object of 300 000 (thorough 600 000) members with pairwise different shapes
     out.push(format!("p_display_wide\t{}\t!ok", if sz.pairs > 10_000 { 600_000 } else { 300_000 }));
     out.push("p_display_wide\t1000\t!ok".to_string());
+    out.push("p_wide_algebra\t40000\t!ok".to_string());
 }
 
 pub fn c12(r: &mut Rng, sz: &Sizes, out: &mut Vec<String>) {
